@@ -25,6 +25,7 @@
 
 #include <stdio.h>
 #include <stdint.h>
+#include <stdbool.h>
 #include "jls/cmacro.h"
 #include "jls/format.h"
 
@@ -248,6 +249,21 @@ const char * jls_tag_to_name(uint8_t tag);
 const char * jls_dt_str(uint32_t datatype);
 
 JLS_CPP_GUARD_END
+
+/**
+ * @brief Select how a header that looks like an interrupted link update is read.
+ *
+ * A writer that stops while it updates item_next of an earlier chunk leaves
+ * a header whose CRC matches the previous item_next.  Such a header only
+ * exists in a file that was not closed, and by default it is accepted (with
+ * item_next cleared) so that the file can be repaired.  In a properly closed
+ * file the same bytes are damage.
+ *
+ * @param self The instance.
+ * @param strict True to report such a header as JLS_ERROR_MESSAGE_INTEGRITY,
+ *      false (default) to accept it.
+ */
+JLS_API void jls_raw_torn_link_strict(struct jls_raw_s * self, bool strict);
 
 /** @} */
 
